@@ -141,7 +141,7 @@ fn pick_char(rng: &mut Rng, chars: &[u32]) -> u32 {
     if rng.chance(4, 5) {
         *rng.pick(chars)
     } else {
-        *rng.pick(&[0u32, 1, 96, 97, 98, 99, 100, 101, 120, MAX_CHAR - 1, MAX_CHAR])
+        *rng.pick(&[0u32, 1, 96, 97, 98, 99, 100, 101, 120, 0xF0, 0xFF, 0x100, 0x110, 0x161, 0xFFFF, 0x10000, 0x10061, MAX_CHAR - 1, MAX_CHAR])
     }
 }
 
@@ -592,6 +592,221 @@ fn corpus(t: &mut Trace) {
     s.finish();
 }
 
+fn member_ops(s: &mut Session, e: RegLan, words: &[Vec<u32>]) {
+    let ie = Session::id(e);
+    for w in words {
+        let r = guarded_m(&mut s.m, |m| p_bool(m.str_in_re(&SmtString::from(&w[..]), e)));
+        s.rec(format!("re str_in_re {} {}", ie, p_nats(w)), r, true);
+    }
+}
+
+/// loops over one body with different ranges, combined by union / intersection / concatenation /
+/// outer loops, alone and behind a prefix character (so that the combination only arises inside a
+/// derivative); bodies include variable-length ones (a|aa, ε|a, Σ*b).  Membership is asked for
+/// every power of the body's words up to 10 copies.
+fn loop_algebra_session(t: &mut Trace, rng: &mut Rng, maxlen: usize) {
+    let mut s = Session::new(t, vec![97, 98, 99], maxlen);
+    let id = Session::id;
+    let a = s.cons("re char 97".into(), 1, |m| m.char(97)).unwrap();
+    let b = s.cons("re char 98".into(), 1, |m| m.char(98)).unwrap();
+    let c = s.cons("re char 99".into(), 1, |m| m.char(99)).unwrap();
+    let aa = s.cons(format!("re concat {} {}", id(a), id(a)), 2, |m| m.concat(a, a)).unwrap();
+    let body = match rng.below(5) {
+        0 => a,
+        1 => s.cons(format!("re union {} {}", id(a), id(aa)), 3, |m| m.union(a, aa)).unwrap(),
+        2 => s.cons(format!("re opt {}", id(a)), 2, |m| m.opt(a)).unwrap(),
+        3 => s.cons("re str [97,98]".into(), 3, |m| m.str(&SmtString::from("ab"))).unwrap(),
+        _ => {
+            let f = s.cons("re full".into(), 1, |m| m.full()).unwrap();
+            s.cons(format!("re concat {} {}", id(f), id(b)), 3, |m| m.concat(f, b)).unwrap()
+        }
+    };
+    let ranges = [
+        LoopRange::opt(), LoopRange::point(2), LoopRange::point(3), LoopRange::finite(2, 3), LoopRange::finite(3, 4),
+        LoopRange::finite(4, 5), LoopRange::star(), LoopRange::plus(), LoopRange::infinite(2), LoopRange::infinite(3),
+    ];
+    let words: Vec<Vec<u32>> = {
+        let mut v = Vec::new();
+        for n in 0..=10usize {
+            v.push(vec![97u32; n]);
+        }
+        for n in 1..=5usize {
+            v.push([97u32, 98].iter().cycle().take(2 * n).cloned().collect());
+            let mut x = vec![99u32];
+            x.extend(vec![97u32; n]);
+            v.push(x);
+        }
+        v
+    };
+    let ib = id(body);
+    let mut results: Vec<(RegLan, u32)> = Vec::new();
+    for _ in 0..14 {
+        let r1 = *rng.pick(&ranges);
+        let r2 = *rng.pick(&ranges);
+        let l1 = match s.cons(format!("re mk_loop {} {}", ib, lr_str(&r1)), 5, |m| m.mk_loop(body, r1)) { Some(x) => x, None => continue };
+        let l2 = match s.cons(format!("re mk_loop {} {}", ib, lr_str(&r2)), 5, |m| m.mk_loop(body, r2)) { Some(x) => x, None => continue };
+        let (i1, i2) = (id(l1), id(l2));
+        let comb = match rng.below(7) {
+            0 => s.cons(format!("re union {} {}", i1, i2), 11, |m| m.union(l1, l2)),
+            1 => s.cons(format!("re inter {} {}", i1, i2), 11, |m| m.inter(l1, l2)),
+            2 => s.cons(format!("re concat {} {}", i1, i2), 11, |m| m.concat(l1, l2)),
+            3 => s.cons(format!("re plus {}", i1), 6, |m| m.plus(l1)),
+            4 => s.cons(format!("re mk_loop {} {}", i1, lr_str(&r2)), 6, |m| m.mk_loop(l1, r2)),
+            5 => s.cons(format!("re diff {} {}", i1, i2), 11, |m| m.diff(l1, l2)),
+            _ => {
+                // behind a prefix: c·l1 op c·l2, so the loop combination only appears in a derivative
+                let p1 = s.cons(format!("re concat {} {}", id(c), i1), 7, |m| m.concat(c, l1));
+                let p2 = s.cons(format!("re concat {} {}", id(c), i2), 7, |m| m.concat(c, l2));
+                match (p1, p2) {
+                    (Some(p1), Some(p2)) => {
+                        if rng.chance(1, 2) {
+                            s.cons(format!("re union {} {}", id(p1), id(p2)), 15, |m| m.union(p1, p2))
+                        } else {
+                            s.cons(format!("re inter {} {}", id(p1), id(p2)), 15, |m| m.inter(p1, p2))
+                        }
+                    }
+                    _ => None,
+                }
+            }
+        };
+        if let Some(e) = comb {
+            results.push((e, 12));
+        }
+    }
+    for (e, sz) in results {
+        member_ops(&mut s, e, &words);
+        observe(&mut s, rng, e, sz, true);
+    }
+    s.finish();
+}
+
+/// the same string (or language) reached along different constructor paths — str("abab") vs
+/// (str "ab")^2 vs chars concatenated left-nested — and then combined (intersection, union with a
+/// complement, difference): hash-consing does not canonicalise these, so rewrites that identify
+/// "different term" with "different language" show here
+fn same_language_session(t: &mut Trace, rng: &mut Rng, maxlen: usize) {
+    let mut s = Session::new(t, vec![97, 98, 99], maxlen);
+    let id = Session::id;
+    let word: Vec<u32> = match rng.below(4) {
+        0 => vec![97, 97, 98],
+        1 => vec![97, 98, 97, 98],
+        2 => vec![97, 97, 97],
+        _ => vec![97, 98, 99, 97, 98, 99],
+    };
+    let mut variants: Vec<RegLan> = Vec::new();
+    let w2 = word.clone();
+    if let Some(v) = s.cons(format!("re str {}", p_nats(&word)), 5, move |m| m.str(&SmtString::from(&w2[..]))) {
+        variants.push(v);
+    }
+    // left-nested concatenation of the characters
+    let mut acc: Option<RegLan> = None;
+    for &ch in &word {
+        let cc = s.cons(format!("re char {}", ch), 1, |m| m.char(ch)).unwrap();
+        acc = match acc {
+            None => Some(cc),
+            Some(x) => s.cons(format!("re concat {} {}", id(x), id(cc)), 5, |m| m.concat(x, cc)),
+        };
+    }
+    if let Some(v) = acc {
+        variants.push(v);
+    }
+    // periodic words as a power of the period
+    let n = word.len();
+    for per in 1..n {
+        if n % per == 0 && (0..n).all(|i| word[i] == word[i % per]) {
+            let half: Vec<u32> = word[..per].to_vec();
+            let h2 = half.clone();
+            if let Some(h) = s.cons(format!("re str {}", p_nats(&half)), 3, move |m| m.str(&SmtString::from(&h2[..]))) {
+                let k = (n / per) as u32;
+                if let Some(v) = s.cons(format!("re exp {} {}", id(h), k), 5, |m| m.exp(h, k)) {
+                    variants.push(v);
+                }
+                if let Some(v) = s.cons(format!("re smt_loop {} {} {}", id(h), k, k), 5, |m| m.smt_loop(h, k, k)) {
+                    variants.push(v);
+                }
+            }
+            break;
+        }
+    }
+    let cch = s.cons("re char 99".into(), 1, |m| m.char(99)).unwrap();
+    let mut results: Vec<RegLan> = Vec::new();
+    for &x in &variants {
+        for &y in &variants {
+            let (ix, iy) = (id(x), id(y));
+            if let Some(e) = s.cons(format!("re inter {} {}", ix, iy), 11, |m| m.inter(x, y)) { results.push(e); }
+            if let Some(cy) = s.cons(format!("re comp {}", iy), 6, |m| m.complement(y)) {
+                if let Some(u) = s.cons(format!("re union {} {}", ix, id(cy)), 12, |m| m.union(x, cy)) {
+                    results.push(u);
+                    if let Some(e) = s.cons(format!("re comp {}", id(u)), 13, |m| m.complement(u)) { results.push(e); }
+                }
+            }
+            if let Some(e) = s.cons(format!("re diff {} {}", ix, iy), 11, |m| m.diff(x, y)) { results.push(e); }
+            // behind a prefix
+            let px = s.cons(format!("re concat {} {}", id(cch), ix), 6, |m| m.concat(cch, x));
+            let py = s.cons(format!("re concat {} {}", id(cch), iy), 6, |m| m.concat(cch, y));
+            if let (Some(px), Some(py)) = (px, py) {
+                if let Some(e) = s.cons(format!("re inter {} {}", id(px), id(py)), 13, |m| m.inter(px, py)) { results.push(e); }
+                if let Some(e) = s.cons(format!("re diff {} {}", id(px), id(py)), 13, |m| m.diff(px, py)) { results.push(e); }
+            }
+        }
+    }
+    let mut pw = vec![99u32];
+    pw.extend_from_slice(&word);
+    let words = vec![word.clone(), pw, vec![], word[..word.len() - 1].to_vec()];
+    for e in results {
+        member_ops(&mut s, e, &words);
+        observe(&mut s, rng, e, 12, true);
+    }
+    s.finish();
+}
+
+/// wide n-ary unions / intersections (9..24 operands with pairwise different class boundaries)
+fn wide_session(t: &mut Trace, rng: &mut Rng, maxlen: usize) {
+    let k = rng.range(9, 24) as usize;
+    let mut s = Session::new(t, vec![97, 98, 97 + k as u32 - 1, 120], maxlen);
+    let id = Session::id;
+    let mut words: Vec<RegLan> = Vec::new();
+    let mut texts: Vec<Vec<u32>> = Vec::new();
+    for i in 0..k {
+        let w: Vec<u32> = vec![97 + i as u32, 120, 97 + ((i * 7) % 5) as u32];
+        let w2 = w.clone();
+        if let Some(v) = s.cons(format!("re str {}", p_nats(&w)), 4, move |m| m.str(&SmtString::from(&w2[..]))) {
+            words.push(v);
+            texts.push(w);
+        }
+    }
+    let ids: Vec<u32> = words.iter().map(|z| z.verif_id() as u32).collect();
+    let ws = words.clone();
+    let u = s.cons(format!("re union_list {}", p_nats(&ids)), 4 * k as u32, move |m| m.union_list(ws));
+    let mut comps: Vec<RegLan> = Vec::new();
+    for &w in &words {
+        if let Some(cw) = s.cons(format!("re comp {}", id(w)), 5, |m| m.complement(w)) {
+            comps.push(cw);
+        }
+    }
+    let cids: Vec<u32> = comps.iter().map(|z| z.verif_id() as u32).collect();
+    let cs = comps.clone();
+    let it = s.cons(format!("re inter_list {}", p_nats(&cids)), 5 * k as u32, move |m| m.inter_list(cs));
+    for e in [u, it].iter().flatten() {
+        let e = *e;
+        let ie = id(e);
+        member_ops(&mut s, e, &texts);
+        s.rec(format!("re deriv_class {}", ie), p_partition_of(e), true);
+        for i in 0..k {
+            let ch = 97 + i as u32;
+            let r = guarded_m(&mut s.m, |m| id(m.char_derivative(e, ch)));
+            s.rec(format!("re char_deriv {} {}", ie, ch), r, true);
+            let set = CharSet::range(ch, std::cmp::min(ch + 1, MAX_CHAR));
+            let r = guarded_m(&mut s.m, |m| match m.set_derivative(e, &set) {
+                Ok(d) => id(d),
+                Err(x) => p_err(x),
+            });
+            s.rec(format!("re set_deriv {} {}-{}", ie, ch, ch + 1), r, true);
+        }
+    }
+    s.finish();
+}
+
 /// pairs for the inclusion test: u = a short concatenation of ranges; v = alternating Σ* and rigid
 /// blocks whose ranges are taken from (or cover) elements of u, with optional rigid prefix/suffix —
 /// overlapping candidate matches, blocks that share elements, too few elements, reversed order
@@ -712,6 +927,11 @@ fn random_session(t: &mut Trace, rng: &mut Rng, n_cons: usize, size_cap: u32, ma
     let other = *rng.pick(&[0u32, 96, 101, 120, MAX_CHAR]);
     let mut chars: Vec<u32> = CORE[..3].to_vec();
     chars.push(other);
+    // one session in four uses an alphabet whose letters alias modulo 2^8 / 2^16
+    // (97, 97+256, 97+65536, 98): truncating keys, tables indexed by a byte or a u16
+    if rng.chance(1, 4) {
+        chars = vec![97, 97 + 256, 97 + 65536, 98];
+    }
     let mut s = Session::new(t, chars, maxlen);
     for _ in 0..n_cons {
         gen_constructor(&mut s, rng, size_cap);
@@ -837,6 +1057,48 @@ fn global_session(seed: u64, maxlen: usize) -> Vec<(String, String, bool)> {
                 ops.push((format!("re replace_re {} {} {}", p_nats(&subj), id(pat), p_nats(&t)), r, true));
                 let r = guarded(|| p_nats(w::str_replace_re_all(&smt(&subj), pat, &smt(&t)).as_ref()));
                 ops.push((format!("re replace_re_all {} {} {}", p_nats(&subj), id(pat), p_nats(&t)), r, true));
+            }
+        }
+        // long patterns (closure of several hundred derivatives) and patterns whose first-character
+        // class straddles a multiple of 256 or lies above 0xFFFF
+        if rng.chance(1, 3) {
+            let n = rng.range(260, 320) as usize;
+            let wv: Vec<u32> = (0..n).map(|_| if rng.chance(1, 2) { 97 } else { 98 }).collect();
+            let wv2 = wv.clone();
+            let lit = w::str_to_re(&SmtString::from(&wv2[..]));
+            ops.push((format!("re str {}", p_nats(&wv)), id(lit), true));
+            let mut subj = vec![120u32, 120];
+            subj.extend_from_slice(&wv);
+            subj.extend_from_slice(&[121, 121]);
+            let t = vec![84u32];
+            let r = guarded(|| p_nats(w::str_replace_re(&smt(&subj), lit, &smt(&t)).as_ref()));
+            ops.push((format!("re replace_re {} {} {}", p_nats(&subj), id(lit), p_nats(&t)), r, true));
+            let r = guarded(|| p_nats(w::str_replace_re_all(&smt(&subj), lit, &smt(&t)).as_ref()));
+            ops.push((format!("re replace_re_all {} {} {}", p_nats(&subj), id(lit), p_nats(&t)), r, true));
+        }
+        {
+            let (lo, hi) = *rng.pick(&[(0xC0u32, 0x17Fu32), (0xF0, 0x110), (0xFFFF, 0x10000), (0x10061, 0x10061), (0x161, 0x161)]);
+            let rg = w::re_range(&SmtString::from(lo), &SmtString::from(hi));
+            ops.push((format!("re smt_range [{}] [{}]", lo, hi), id(rg), true));
+            let pat = if rng.chance(1, 2) {
+                let p = w::re_plus(rg);
+                ops.push((format!("re plus {}", id(rg)), id(p), true));
+                p
+            } else {
+                rg
+            };
+            pool.push(pat);
+            for _ in 0..4 {
+                let mut subj = rand_string(&mut rng, &[97, 98, lo & 0xFF, hi & 0xFF, 0x61], 3);
+                subj.push(if rng.chance(1, 2) { lo } else { hi });
+                subj.extend(rand_string(&mut rng, &[97, lo, hi, 0xE9], 3));
+                let t = vec![84u32];
+                let r = guarded(|| p_nats(w::str_replace_re(&smt(&subj), pat, &smt(&t)).as_ref()));
+                ops.push((format!("re replace_re {} {} {}", p_nats(&subj), id(pat), p_nats(&t)), r, true));
+                let r = guarded(|| p_nats(w::str_replace_re_all(&smt(&subj), pat, &smt(&t)).as_ref()));
+                ops.push((format!("re replace_re_all {} {} {}", p_nats(&subj), id(pat), p_nats(&t)), r, true));
+                let r = guarded(|| p_bool(w::str_in_re(&smt(&subj), pat)));
+                ops.push((format!("re str_in_re {} {}", id(pat), p_nats(&subj)), r, true));
             }
         }
         // every term handed out by a wrapper must be the thread-local manager's own node (C07)
@@ -1067,6 +1329,18 @@ pub fn run(t: &mut Trace, rng: &mut Rng, thorough: bool) {
     for k in 0..sessions {
         let (n_cons, cap) = match k % 4 { 0 => (30, 12), 1 => (50, 20), 2 => (70, 30), _ => (90, 40) };
         random_session(t, rng, n_cons, cap, if thorough { 4 } else { 3 });
+    }
+    let la = if thorough { 200 } else { 24 };
+    for _ in 0..la {
+        loop_algebra_session(t, rng, 3);
+    }
+    let sl = if thorough { 100 } else { 12 };
+    for _ in 0..sl {
+        same_language_session(t, rng, 3);
+    }
+    let wd = if thorough { 60 } else { 8 };
+    for _ in 0..wd {
+        wide_session(t, rng, 3);
     }
     let incl = if thorough { 300 } else { 30 };
     for _ in 0..incl {
